@@ -22,6 +22,10 @@ class Unsupported(Exception):
     """The executor met something it has no model for: the *function* becomes UNDECIDED (fail closed)."""
 
 
+class HardUnsupported(Unsupported):
+    """as Unsupported, but never absorbed by the skeleton mode (the construct may hide an effect on tracked state)"""
+
+
 # ---------------------------------------------------------------------------------------------
 # scalars
 # ---------------------------------------------------------------------------------------------
@@ -77,6 +81,14 @@ class Opaque:
 
     def __repr__(self):
         return f'Opaque({self.what})'
+
+
+class OpaqueSeq(Opaque):
+    """an opaque sequence of which only emptiness is known (True / False / None = unknown)"""
+
+    def __init__(self, nonempty=None, what='opaque sequence'):
+        super().__init__(what)
+        self.nonempty = nonempty
 
 
 def is_concrete(v) -> bool:
